@@ -485,7 +485,9 @@ val find_col : char list -> pcolumn list -> pcolumn option
 
 val has_dup : char list list -> bool
 
-val init_params : char list list
+val reserved_params : char list list
+
+val opaque_params : char list list
 
 val is_time_index : ikind -> bool
 
@@ -529,6 +531,10 @@ val rows_to_symbols :
   -> symbol list tres
 
 val symbol_fields : char list list
+
+val check_field : pcolumn list -> char list -> (cell -> 'a1 tres) -> unit tres
+
+val first_row_raises : pcolumn list -> symbol list tres
 
 val table_to_symbols : table -> symbol list tres
 
